@@ -332,7 +332,8 @@ func c20(tier string, args []string) int {
 	// the 0.1.4 adaptation: (1) a signing proposal posted by a stranger while the key generation
 	// was under way; (2) an unsigned deal line under participant 0's name before the deals phase;
 	// (3) a validly signed report of participant 1 that no round judges (a reconstruction failure
-	// report), dated in the year 2100, right after the opening proposal
+	// report), dated in the year 2100, right after the opening proposal; (4) the opening proposal
+	// posted a second time after the first confirmations
 	if lastOM.Round != "" && lastRec != nil && len(lastOM.Log) > 4 {
 		insertAfter := func(k int, m storage.Message) []storage.Message {
 			out := append([]storage.Message{}, lastOM.Log[:k+1]...)
@@ -350,6 +351,7 @@ func c20(tier string, args []string) int {
 				Data: world.MustJSON(requests.SigningBatchProposalStartRequest{BatchID: "junk-batch", ParticipantId: 0, CreatedAt: world.T0, SigningTasks: []requests.SigningTask{{MessageID: "j", File: "j", Payload: []byte("junk")}}})})},
 			{"junk-deal-line-in-dump/", "an unsigned deal line under participant 0's name before the deals phase", insertAfter(1, storage.Message{DkgRoundID: lastOM.Round, Event: "event_dkg_deal_confirm_received", SenderAddr: lastOM.Names[0], RecipientAddr: lastOM.Names[1],
 				Data: world.MustJSON(requests.DKGProposalDealConfirmationRequest{ParticipantId: 0, Deal: []byte("junk"), CreatedAt: world.T0})})},
+			{"proposal-copy-in-dump/", "the opening proposal posted a second time after the first confirmations (every node refuses the copy)", insertAfter(2, lastOM.Log[0])},
 			{"unjudged-dated-report-in-dump/", "a signed reconstruction-failure report of participant 1 dated in 2100", insertAfter(0, world.SignedMessage(lastOM.Round, "signature_reconstruction_failed",
 				world.MustJSON(map[string]interface{}{"BatchID": "none", "ParticipantId": 1, "Error": "junk", "CreatedAt": far}), p1.Name, p1.KeyPair.Priv, ""))},
 		}
